@@ -170,10 +170,11 @@ def domain_job(args) -> dict:
             n = -m if want["a"][1] else m
             value = n / want["a"][0] if want["a"][0] != 1 else n
             prior = w if e["ty"] in ("ByteH", "ByteL") else rnd.randrange(65536)
+            own = rnd.choice((0x00, 0xFF, rnd.randrange(256), rnd.randrange(256)))    # previous content of the setting's own byte
             if e["ty"] == "ByteH":
-                prior = (rnd.randrange(256) << 8) | (w & 0xFF)
+                prior = (own << 8) | (w & 0xFF)
             elif e["ty"] == "ByteL":
-                prior = (w & 0xFF00) | rnd.randrange(256)
+                prior = (w & 0xFF00) | own
             sim.set(e["addr"], prior)
             others = {a: sim.get(a) for a in (e["addr"] - 1, e["addr"] + 1)}
             nlog = len(sim.log)
